@@ -6,7 +6,7 @@ TECH = "deterministic simulation with fault injection: seeded scheduler over a t
 
 CHECKS = {
  "C14": dict(level="exploration",
-   text="Seeded search over delivery orders, handler stalls, reply-before-wait, nested call-backs and cancellations on two real jsonrpc2.Remote ends joined by a simulated connection; oracles: own reply by unique token, handled exactly once, context service identity, prompt cancellation, bounded liveness after faults stop. Sampling, not proof.",
+   text="Seeded search over delivery orders, handler stalls, reply-before-wait, nested call-backs and cancellations on two real jsonrpc2.Remote ends joined by a simulated connection; oracles: own reply by unique token, handled exactly once, context service identity, prompt cancellation, bounded liveness after faults stop. In half of the runs callers can also be preempted right before every atomic operation of the repository (yield points inserted at build time by sim/cmd/instrument through -overlay; on this tree: request-id allocation). Sampling, not proof.",
    note="Connection is a message-level FIFO stub (no loss/reorder inside a connection, as TCP/WebSocket); a caller parked between write and wait is not cancelled (Go's select would choose at random).",
    technique=TECH+"message-delivery/handler-release/cancellation schedules, token oracle + bounded liveness", design="4 C14"),
 }
@@ -65,7 +65,7 @@ CHECKS.update({
    note="In the L1 scenarios the pool end of every connection does what server.go does; c09_l2_server runs the real runPool + server.ServeHTTP (hook H2) over simulated byte streams with scripted WebSocket hosts that end their sockets by TCP drop, close frames 1000/1001/1002/1006 or garbage.",
    technique=TECH+"connection lifecycle event orders vs a registry reference model", design="4 C09"),
  "C19": dict(level="exploration",
-   text=W+"Hosts register (connect and legacy host) with 16 kinds of node-URI override from 9 kinds of connection source address; what is stored and what a client is handed is parsed with the agent-side parser and net.SplitHostPort and must carry the authenticated id and the supplied/connection host and port; undeterminable addresses must be refused.",
+   text=W+"Hosts register (connect and legacy host) with 18 kinds of node-URI override from 11 kinds of connection source address (IPv4, IPv6 with and without zone, DNS, empty, unspecified); what is stored and what a client is handed is parsed with the agent-side parser and net.SplitHostPort and must carry the authenticated id and the supplied/connection host and port; undeterminable addresses must be refused.",
    note="Low simulation weight: the schedule is inert, the simulator contributes the transport-supplied source address and the three-party round trip.",
    technique=TECH+"registration inputs x connection source addresses through the real connect path, round-trip parse oracle", design="4 C19"),
  "C10": dict(level="exploration",
@@ -73,7 +73,7 @@ CHECKS.update({
    note="Serialisability is checked on resulting balances and nonce decisions by interval arithmetic rather than by a general linearizability search; peer sets are kept fresh so that no eviction depends on the order. Inside one store call of the memory driver no interleaving is possible under the cooperative scheduler: removed locking there is the race build's job. Socket transport concurrency (gorilla) is covered by C17's race scenario, not here.",
    technique=TECH+"concurrent request bursts interleaved at store-op and in-transaction yield points; serial-order interval oracle, snapshot-immutability registry, race detector with masked hand-offs", design="4 C10"),
  "C18": dict(level="exploration",
-   text="Real agent.Agent against a recording node and a scripted pool over 1-6 keep-alive rounds driven by the real ticker on the simulated clock and by forced updates: churning local peer sets, active/invalid lists as ids or enode URIs with/without addresses, loopback/unspecified hosts and differing ports, strict mode on/off, targets 0-6, pool errors at update or at the peer request, light/full, geth/parity. After every round the node calls must equal the reference reconciliation: un-trust + disconnect exactly the declared-invalid peers (plus, strict, local peers not listed under the same host), one peer request for exactly the shortfall of the node's own kind, ConnectPeer for every returned host, nothing at all after a failed keep-alive.",
+   text="Real agent.Agent against a recording node and a scripted pool over 1-6 keep-alive rounds driven by the real ticker on the simulated clock and by forced updates: churning local peer sets, active/invalid lists as ids or enode URIs with/without addresses, loopback/unspecified hosts and differing ports, strict mode on/off, targets 0-6, pool errors at update or at the peer request, an Ethereum-node RPC error on the k-th un-trust or disconnect call of a round (the attempt counts), light/full, geth/parity. After every round the node calls must equal the reference reconciliation: un-trust + disconnect exactly the declared-invalid peers (plus, strict, local peers not listed under the same host), one peer request for exactly the shortfall of the node's own kind, ConnectPeer for every returned host, nothing at all after a failed keep-alive.",
    note="Node and pool are stubs (ethnode.EthNode / pool.Pool interfaces); geth/parity RPC adapters are not run. Peers whose local or pool-side host is loopback/unspecified/empty are a don't-care in strict mode.",
    technique=TECH+"multi-round agent/node/pool histories with injected pool errors vs a reference reconciliation", design="4 C18"),
  "C20": dict(level="exploration",
@@ -85,11 +85,11 @@ CHECKS.update({
    note="The connection is a reliable ordered byte stream (no loss/duplication, as TCP). The simulator never parks a goroutine inside Write (codecs hold their write lock there), so byte interleaving of concurrent writers can only show as a race report or as gorilla's own concurrent-write panic. Step budget exhaustion with byte-at-a-time chunking is counted as inconclusive, not as loss.",
    technique=TECH+"byte-stream chunking schedules over real codecs, HTTP server and dialers; written-vs-read sequence oracle; race detector for concurrent writers", design="4 C17"),
  "C15": dict(level="exploration",
-   text=W+"A hostile peer, concurrent with honest sessions on other connections, sends hostile but structurally valid JSON-RPC requests to every registered endpoint of the pool, payment and status services (missing/null/object/scalar params, wrong arity and types, duplicate and non-scalar ids, signatures of length 0..71 in several encodings, odd ids, URIs and peer descriptions, negative, huge and overflowing counts - also correctly signed by its own key), raw garbage and truncated JSON, and - registered as a host - hostile replies to whitelist calls; a second scenario runs the real agent.Agent against a hostile pool. A panic anywhere kills the worker process and is reported as the violation with the run's seed; every well-formed request must get exactly one reply with its id and a result or an error; the hostile connection must still answer vipnode_ping after hostile requests; honest sessions must complete.",
+   text=W+"A hostile peer, concurrent with honest sessions on other connections, sends hostile but structurally valid JSON-RPC requests to every registered endpoint of the pool, payment and status services (missing/null/object/scalar params, wrong arity and types, duplicate and non-scalar ids, signatures of length 0..71 in several encodings, odd ids, URIs and peer descriptions, negative, huge and overflowing counts - also correctly signed by its own key), raw garbage and truncated JSON, and - registered as a host - hostile replies to whitelist calls; a second scenario runs the real agent.Agent against a hostile pool (every hostile reply that carries the call's id must end the call at once, not at its deadline). A panic anywhere kills the worker process and is reported as the violation with the run's seed; every well-formed request must get exactly one reply with its id and a result or an error; the hostile connection must still answer vipnode_ping after hostile requests; honest sessions must complete.",
    note="Hostility is injected at message level on the simulated codec; c15_l2_hostile adds hostile WebSocket frames and HTTP bodies against the real server.go / runPool while an honest session and the health check must keep working. When the hostile peer also sent hostile replies the pool may drop that connection (the statement exempts floods of replies). \"result\":null next to an error is counted as an error reply.",
    technique=TECH+"hostile request/reply catalogue injected into live multi-connection sessions; process-survival, one-reply and liveness oracles", design="4 C15"),
  "C16": dict(level="exploration",
-   text="Servers built from a family of receiver types x prefixes x allow-lists, and the production registrations (vipnode_ with its allow-list, pool_ payment and status): every registered name, case variants, unexported/helper/unregistrable methods, other prefixes; for each callable method every arity 0..n+2, per-position JSON type substitutions, omitted/null/non-array params, directly and through a real jsonrpc2.Remote over a simulated connection: the callable set is exactly {prefix + lower-first(name)} within the allow-list and, for the pool, exactly the documented surface; unknown names get -32601, wrong arity or type gets -32602 and the method does not run (invocation counters; on production receivers no store operation and an unchanged state digest).",
+   text="Servers built from a family of receiver types x prefixes x allow-lists, and the production registrations (vipnode_ with its allow-list, pool_ payment and status): every registered name, case variants, unexported/helper/unregistrable methods, other prefixes; for each callable method every arity 0..n+2, per-position JSON type substitutions (including strings that look like a number or a boolean, and numbers out of range), omitted/null/non-array params, directly and through a real jsonrpc2.Remote over a simulated connection: the callable set is exactly {prefix + lower-first(name)} within the allow-list and, for the pool, exactly the documented surface; unknown names get -32601, wrong arity or type gets -32602 and the method does not run (invocation counters; on production receivers no store operation and an unchanged state digest).",
    note="Low simulation weight: schedule, clock and faults are inert; the simulator contributes the real registration code and the transport path. c16_l2_surface probes the method list served by the real runPool registration (hook H2) over WebSocket and over HTTP POST; a separately started executable on real sockets is not used. JSON null for a scalar parameter is a don't-care.",
    technique=TECH+"name/arity/type probe matrices against real registration and dispatch code", design="4 C16"),
 })
